@@ -100,7 +100,7 @@ fn main() {
                 std::process::exit(2);
             };
             // checks whose thorough alphabets take seconds run them in the quick tier too
-            let deep_quick = tier == Tier::Quick && ["C19", "C21", "C29", "C34"].contains(&id.as_str());
+            let deep_quick = tier == Tier::Quick && ["C17", "C19", "C21", "C29", "C34"].contains(&id.as_str());
             report::DEEP_QUICK.store(deep_quick, std::sync::atomic::Ordering::Relaxed);
             let rep = match util::guarded(|| run(tier)) {
                 Ok(mut r) => {
